@@ -370,7 +370,8 @@ func InnerText(node *html.Node) string {
 	finder = func(n *html.Node) {
 		switch n.Type {
 		case html.TextNode:
-			buffer.WriteString(" " + n.Data + " ")
+			buffer.WriteString(n.Data)
+			return
 
 		case html.ElementNode:
 			if n.Data == "br" {
@@ -389,8 +390,19 @@ func InnerText(node *html.Node) string {
 			}
 		}
 
+		// Only the boundaries of non-inline elements separate words: the
+		// parts of "H<sub>2</sub>O" or "<b>W</b>ord" belong together.
+		separated := n.Type == html.ElementNode && GetDisplayStyle(n) != "inline"
+		if separated {
+			buffer.WriteString(" ")
+		}
+
 		for child := n.FirstChild; child != nil; child = child.NextSibling {
 			finder(child)
+		}
+
+		if separated {
+			buffer.WriteString(" ")
 		}
 	}
 
